@@ -222,7 +222,7 @@ def check_raw_layout(prog, rep):
 
 
 def check(env, rep, tier):
-    include(rep, env, tier, "c02", ("C02.2",), "C01.8", "'parsing those bytes returns the same message': the decoder forms option numbers and values from the prescribed bytes")
+    include(rep, env, tier, "c02", ("C02.2", "C02.4"), "C01.8", "'parsing those bytes returns the same message': the decoder forms option numbers and values from the prescribed bytes")
     include(rep, env, tier, "c03", ("C03.5",), "C01.9", "'and decode back': the decoder rejects nothing the encoder can emit (every rejecting branch is justified)")
     configs = ["default"] if tier == "quick" else ["default", "nodefault", "udp"]
     rep.configs = configs
